@@ -800,6 +800,12 @@ func replayFile(t *testing.T, path string) {
 		if _, f := runHistory(p); f != "" {
 			ev.Fail(t, test, p, "template %q: %s", p.Src, f)
 		}
+	case "TestHostIndexable":
+		var p hostIndexPayload
+		if _, err := ev.LoadReplay(path, &p); err != nil {
+			t.Fatalf("load %s: %v", path, err)
+		}
+		checkHostIndexable(t, test, p)
 	case "TestHostCallArgs":
 		var p hostCallPayload
 		if _, err := ev.LoadReplay(path, &p); err != nil {
